@@ -1,6 +1,823 @@
-From Coq Require Import List Arith Bool.
+(* Types/UnifyProofs.v -- proofs of the C10 properties of unify_types (Types/Unify.v).
+   The statements are collected in Types/Properties_C10.v. *)
+From Coq Require Import List Arith Bool Lia.
 Import ListNotations.
-From Heph Require Import Types.Syntax Types.Subst Types.Subtype Types.Unify.
+From Heph Require Import Types.Syntax Types.Subst Types.Subtype Types.Unify Types.UnifySpec
+  Types.SubstProofs Types.UnifyDefs Types.UnifyInv.
+
+(* ====================================================================================== *)
+(* Python equality: small consequences                                                    *)
+(* ====================================================================================== *)
+Lemma py_eqb_false_trans : forall a b c, py_eqb a b = true -> py_eqb a c = false -> py_eqb b c = false.
+Proof.
+  intros a b c H1 H2. destruct (py_eqb b c) eqn:E; [|reflexivity].
+  rewrite (py_eqb_trans a b c H1 E) in H2. discriminate.
+Qed.
+
+Lemma py_eqb_is_tvar : forall a b, py_eqb a b = true -> is_tvar a = is_tvar b.
+Proof. intros a b H. destruct a, b; try reflexivity; cbn in H; discriminate. Qed.
+
+Lemma py_eqb_tvar_some : forall x vv b k, py_eqb (TVar x vv (Some b)) k = true ->
+  exists x0 vv0 b0, k = TVar x0 vv0 (Some b0) /\ py_eqb b b0 = true.
+Proof.
+  intros x vv b k H. destruct k as [| | | |x0 vv0 ob| | |]; try (cbn in H; discriminate).
+  rewrite py_eqb_var in H. apply andb_prop in H. destruct H as [_ H].
+  destruct ob as [b0|]; [|cbn in H; discriminate]. exists x0, vv0, b0. split; [reflexivity|exact H].
+Qed.
+
+Lemma py_eqb_tvar_none : forall x vv k, py_eqb (TVar x vv None) k = true ->
+  exists x0 vv0, k = TVar x0 vv0 None.
+Proof.
+  intros x vv k H. destruct k as [| | | |x0 vv0 ob| | |]; try (cbn in H; discriminate).
+  rewrite py_eqb_var in H. apply andb_prop in H. destruct H as [_ H].
+  destruct ob as [b0|]; [cbn in H; discriminate|]. exists x0, vv0. reflexivity.
+Qed.
+
+(* ====================================================================================== *)
+(* The dictionary: tv_get / tv_set / update_map / merge                                   *)
+(* ====================================================================================== *)
+Lemma tv_get_cong : forall m k k', py_eqb k k' = true -> tv_get m k = tv_get m k'.
+Proof.
+  induction m as [|[k0 v0] m IH]; intros k k' H; [reflexivity|]. cbn [tv_get].
+  destruct (py_eqb k0 k) eqn:E1.
+  - rewrite (py_eqb_trans k0 k k' E1 H). reflexivity.
+  - assert (E2 : py_eqb k0 k' = false).
+    { destruct (py_eqb k0 k') eqn:E2; [|reflexivity].
+      rewrite py_eqb_sym in H. rewrite (py_eqb_trans k0 k' k E2 H) in E1. discriminate. }
+    rewrite E2. apply IH. exact H.
+Qed.
+
+Lemma tv_get_set_same : forall m k v, tv_get (tv_set m k v) k = Some v.
+Proof.
+  induction m as [|[k0 v0] m IH]; intros k v; cbn [tv_set tv_get].
+  - rewrite py_eqb_refl. reflexivity.
+  - destruct (py_eqb k0 k) eqn:E; cbn [tv_get]; rewrite E; [reflexivity | apply IH].
+Qed.
+
+Lemma tv_get_set_other : forall m k v k', py_eqb k' k = false -> tv_get (tv_set m k v) k' = tv_get m k'.
+Proof.
+  induction m as [|[k0 v0] m IH]; intros k v k' H; cbn [tv_set tv_get].
+  - rewrite py_eqb_sym, H. reflexivity.
+  - destruct (py_eqb k0 k) eqn:E; cbn [tv_get].
+    + assert (E2 : py_eqb k0 k' = false).
+      { destruct (py_eqb k0 k') eqn:E2; [|reflexivity].
+        rewrite py_eqb_sym in E2. rewrite (py_eqb_trans k' k0 k E2 E) in H. discriminate. }
+      rewrite E2. reflexivity.
+    + destruct (py_eqb k0 k'); [reflexivity | apply IH; exact H].
+Qed.
+
+Lemma tv_get_in : forall m k v, tv_get m k = Some v -> exists k0, In (k0, v) m /\ py_eqb k0 k = true.
+Proof.
+  induction m as [|[k0 v0] m IH]; intros k v H; cbn [tv_get] in H; [discriminate|].
+  destruct (py_eqb k0 k) eqn:E.
+  - injection H as <-. exists k0. split; [left; reflexivity | exact E].
+  - destruct (IH _ _ H) as [k1 [I1 E1]]. exists k1. split; [right; exact I1 | exact E1].
+Qed.
+
+Lemma tv_get_none : forall m k k0 v, tv_get m k = None -> In (k0, v) m -> py_eqb k0 k = false.
+Proof.
+  induction m as [|[k1 v1] m IH]; intros k k0 v H I; [destruct I|]. cbn [tv_get] in H.
+  destruct (py_eqb k1 k) eqn:E; [discriminate|]. destruct I as [I|I].
+  - injection I as <- <-. exact E.
+  - eapply IH; eauto.
+Qed.
+
+(* an entry of the updated dictionary is an old entry, or carries the new value under a key
+   equal to the new key *)
+Lemma tv_set_in : forall m k0 v0 k v, In (k, v) (tv_set m k0 v0) ->
+  In (k, v) m \/ (v = v0 /\ py_eqb k k0 = true).
+Proof.
+  induction m as [|[k1 v1] m IH]; intros k0 v0 k v H; cbn [tv_set] in H.
+  - destruct H as [H|[]]. injection H as <- <-. right. split; [reflexivity | apply py_eqb_refl].
+  - destruct (py_eqb k1 k0) eqn:E.
+    + destruct H as [H|H].
+      * injection H as <- <-. right. split; [reflexivity | exact E].
+      * left. right. exact H.
+    + destruct H as [H|H].
+      * left. left. exact H.
+      * destruct (IH _ _ _ _ H) as [I|I]; [left; right; exact I | right; exact I].
+Qed.
+
+Lemma existsb_tv_set : forall m k v k1,
+  existsb (fun kv : ty * option ty => py_eqb (fst kv) k1) m = false -> py_eqb k k1 = false ->
+  existsb (fun kv : ty * option ty => py_eqb (fst kv) k1) (tv_set m k v) = false.
+Proof.
+  induction m as [|[k0 v0] m IH]; intros k v k1 H1 H2; cbn [tv_set existsb fst] in *.
+  - rewrite H2. reflexivity.
+  - apply orb_false_iff in H1. destruct H1 as [H1 H3].
+    destruct (py_eqb k0 k); cbn [existsb fst]; rewrite H1; cbn [orb]; [exact H3 | apply IH; assumption].
+Qed.
+
+Lemma keys_distinct_set : forall m k v, keys_distinct m = true -> keys_distinct (tv_set m k v) = true.
+Proof.
+  induction m as [|[k0 v0] m IH]; intros k v H; cbn [tv_set keys_distinct] in *; [reflexivity|].
+  apply andb_prop in H. destruct H as [H1 H2]. apply negb_true_iff in H1.
+  destruct (py_eqb k0 k) eqn:E; cbn [keys_distinct].
+  - rewrite H1, H2. reflexivity.
+  - rewrite (IH _ _ H2), andb_true_r. apply negb_true_iff. apply existsb_tv_set; [exact H1|].
+    rewrite py_eqb_sym. exact E.
+Qed.
+
+Lemma update_map_some : forall m k v m', update_map m k v = Some m' -> m' = tv_set m k v.
+Proof.
+  intros m k v m' H. unfold update_map in H.
+  destruct (tv_get m k) as [[old|]|]; try (injection H as <-; reflexivity).
+  destruct (py_eqb old _ && _); [injection H as <-; reflexivity | discriminate].
+Qed.
 
 Lemma update_map_fresh : forall m k v, tv_get m k = None -> update_map m k v = Some (tv_set m k v).
 Proof. intros m k v H. unfold update_map. rewrite H. reflexivity. Qed.
+
+(* U3: the exact behaviour of _update_type_var_map *)
+Lemma update_map_spec : forall m k v,
+  (forall m', update_map m k v = Some m' ->
+     (forall old, tv_get m k = Some (Some old) -> exists x, v = Some x /\ py_eqb old x = true) /\
+     tv_get m' k = Some v /\
+     (forall k', py_eqb k' k = true -> tv_get m' k' = Some v) /\
+     (forall k', py_eqb k' k = false -> tv_get m' k' = tv_get m k')) /\
+  (update_map m k v = None ->
+     exists old, tv_get m k = Some (Some old) /\ forall x, v = Some x -> py_eqb old x = false).
+Proof.
+  intros m k v. split.
+  - intros m' H. pose proof (update_map_some _ _ _ _ H) as ->. split; [|split; [|split]].
+    + intros old G. unfold update_map in H. rewrite G in H.
+      destruct v as [x|]; [|rewrite andb_false_r in H; discriminate].
+      rewrite andb_true_r in H. destruct (py_eqb old x) eqn:E; [|discriminate].
+      exists x. split; [reflexivity | exact E].
+    + apply tv_get_set_same.
+    + intros k' E. rewrite (tv_get_cong _ k' k E). apply tv_get_set_same.
+    + intros k' E. apply tv_get_set_other. exact E.
+  - intros H. unfold update_map in H. destruct (tv_get m k) as [[old|]|]; try discriminate.
+    exists old. split; [reflexivity|]. intros x ->. rewrite andb_true_r in H.
+    destruct (py_eqb old x); [discriminate | reflexivity].
+Qed.
+
+Lemma merge_none : forall res : tvmap,
+  fold_left (fun (acc : option tvmap) (kv : ty * option ty) =>
+               match acc with Some a => update_map a (fst kv) (snd kv) | None => None end) res None = None.
+Proof. induction res as [|kv res IH]; [reflexivity | exact IH]. Qed.
+
+Lemma merge_nil : forall m, merge m [] = Some m.
+Proof. reflexivity. Qed.
+
+Lemma merge_cons : forall m k v res,
+  merge m ((k, v) :: res) = match update_map m k v with Some a => merge a res | None => None end.
+Proof.
+  intros m k v res. unfold merge. cbn [fold_left fst snd].
+  destruct (update_map m k v); [reflexivity | apply merge_none].
+Qed.
+
+Lemma merge_other : forall res m m' k, merge m res = Some m' ->
+  (forall k0 v0, In (k0, v0) res -> py_eqb k0 k = false) -> tv_get m' k = tv_get m k.
+Proof.
+  induction res as [|[k0 v0] res IH]; intros m m' k H N.
+  - rewrite merge_nil in H. injection H as <-. reflexivity.
+  - rewrite merge_cons in H. destruct (update_map m k0 v0) as [m1|] eqn:U; [|discriminate].
+    rewrite (IH _ _ _ H); [|intros; eapply N; right; eauto].
+    destruct (update_map_spec m k0 v0) as [S _]. destruct (S _ U) as [_ [_ [_ S4]]].
+    apply S4. rewrite py_eqb_sym. eapply N. left. reflexivity.
+Qed.
+
+Lemma keys_distinct_cons : forall k v (m : tvmap), keys_distinct ((k, v) :: m) = true ->
+  (forall k1 v1, In (k1, v1) m -> py_eqb k1 k = false) /\ keys_distinct m = true.
+Proof.
+  intros k v m H. cbn [keys_distinct] in H. apply andb_prop in H. destruct H as [H1 H2].
+  split; [|exact H2]. intros k1 v1 I. apply negb_true_iff in H1.
+  destruct (py_eqb k1 k) eqn:E; [|reflexivity].
+  assert (X : existsb (fun kv : ty * option ty => py_eqb (fst kv) k) m = true).
+  { apply existsb_exists. exists (k1, v1). split; [exact I | exact E]. }
+  rewrite X in H1. discriminate.
+Qed.
+
+(* U3 for the loop `any(not _update_type_var_map(type_var_map, k, v) for k, v in res.items())` *)
+Lemma merge_spec : forall res m m', merge m res = Some m' -> keys_distinct res = true ->
+  (forall k v, tv_get res k = Some v ->
+     tv_get m' k = Some v /\
+     (forall old, tv_get m k = Some (Some old) -> exists x, v = Some x /\ py_eqb old x = true)) /\
+  (forall k, tv_get res k = None -> tv_get m' k = tv_get m k).
+Proof.
+  induction res as [|[k0 v0] res IH]; intros m m' H KD.
+  - rewrite merge_nil in H. injection H as <-. split; [intros k v G; discriminate G | reflexivity].
+  - rewrite merge_cons in H. destruct (update_map m k0 v0) as [m1|] eqn:U; [|discriminate].
+    destruct (keys_distinct_cons _ _ _ KD) as [N KD'].
+    destruct (update_map_spec m k0 v0) as [S _]. destruct (S _ U) as [S1 [S2 [S3 S4]]].
+    destruct (IH _ _ H KD') as [I1 I2]. split.
+    + intros k v G. cbn [tv_get] in G. destruct (py_eqb k0 k) eqn:E.
+      * injection G as <-. split.
+        -- rewrite (merge_other _ _ _ k H).
+           ++ apply S3. rewrite py_eqb_sym. exact E.
+           ++ intros k1 v1 I. rewrite py_eqb_sym. apply (py_eqb_false_trans k0 k k1 E).
+              rewrite py_eqb_sym. eapply N. exact I.
+        -- intros old G. apply S1. rewrite (tv_get_cong m k0 k E). exact G.
+      * destruct (I1 _ _ G) as [J1 J2]. split; [exact J1|].
+        intros old G'. apply J2. rewrite S4; [exact G'|]. rewrite py_eqb_sym. exact E.
+    + intros k G. cbn [tv_get] in G. destruct (py_eqb k0 k) eqn:E; [discriminate|].
+      rewrite (I2 _ G). apply S4. rewrite py_eqb_sym. exact E.
+Qed.
+
+Lemma merge_in : forall res m m' k v, merge m res = Some m' -> In (k, v) m' ->
+  In (k, v) m \/ exists k0, In (k0, v) res /\ py_eqb k k0 = true.
+Proof.
+  induction res as [|[k0 v0] res IH]; intros m m' k v H I.
+  - rewrite merge_nil in H. injection H as <-. left. exact I.
+  - rewrite merge_cons in H. destruct (update_map m k0 v0) as [m1|] eqn:U; [|discriminate].
+    pose proof (update_map_some _ _ _ _ U) as ->.
+    destruct (IH _ _ _ _ H I) as [J|[k1 [J1 J2]]].
+    + apply tv_set_in in J. destruct J as [J|[-> E]].
+      * left. exact J.
+      * right. exists k0. split; [left; reflexivity | exact E].
+    + right. exists k1. split; [right; exact J1 | exact J2].
+Qed.
+
+(* ====================================================================================== *)
+(* U1, U2: the answer is a well-formed assignment                                          *)
+(* ====================================================================================== *)
+Definition wf_map (m : tvmap) : Prop :=
+  keys_distinct m = true /\ forall k v, In (k, v) m -> is_tvar k = true /\ v <> None.
+
+Lemma wf_nil : wf_map [].
+Proof. split; [reflexivity | intros k v []]. Qed.
+
+Lemma wf_single : forall k v, is_tvar k = true -> wf_map [(k, Some v)].
+Proof.
+  intros k v H. split; [reflexivity|]. intros k' v' [I|[]]. injection I as <- <-.
+  split; [exact H | discriminate].
+Qed.
+
+Lemma wf_set : forall m k v, wf_map m -> is_tvar k = true -> wf_map (tv_set m k (Some v)).
+Proof.
+  intros m k v [W1 W2] T. split; [apply keys_distinct_set; exact W1|].
+  intros k' v' I. apply tv_set_in in I. destruct I as [I|[-> E]]; [apply W2; exact I|].
+  split; [|discriminate]. rewrite (py_eqb_is_tvar _ _ E). exact T.
+Qed.
+
+Lemma wf_update : forall m k v m', wf_map m -> is_tvar k = true ->
+  update_map m k (Some v) = Some m' -> wf_map m'.
+Proof. intros m k v m' W T U. rewrite (update_map_some _ _ _ _ U). apply wf_set; assumption. Qed.
+
+Lemma wf_merge : forall res m m', wf_map m -> wf_map res -> merge m res = Some m' -> wf_map m'.
+Proof.
+  induction res as [|[k0 v0] res IH]; intros m m' Wm Wr H.
+  - rewrite merge_nil in H. injection H as <-. exact Wm.
+  - rewrite merge_cons in H. destruct (update_map m k0 v0) as [m1|] eqn:U; [|discriminate].
+    destruct Wr as [KD Wr]. destruct (keys_distinct_cons _ _ _ KD) as [_ KD'].
+    destruct (Wr k0 v0 (or_introl eq_refl)) as [T NN].
+    destruct v0 as [x|]; [|contradiction NN; reflexivity].
+    apply (IH m1 m'); [eapply wf_update; eauto | | exact H].
+    split; [exact KD' | intros k v I; apply Wr; right; exact I].
+Qed.
+
+Section WF.
+  Context (w : world) (alias : list (nat * nat)) (any : nat).
+
+  Lemma step_wf : forall rec m a1 a2 m',
+    (forall a b r, rec a b = Val r -> wf_map r) ->
+    Step w rec m a1 a2 m' -> wf_map m -> wf_map m'.
+  Proof.
+    intros rec m a1 a2 m' Hrec S W. destruct S as [v|a1 a2 y1 y2 m' _ I]; [exact W|].
+    destruct I.
+    - exact W.
+    - eapply wf_update; [exact W | | eassumption]. reflexivity.
+    - eapply wf_merge; [exact W | | eassumption]. eapply Hrec; eassumption.
+    - eapply wf_update; [exact W | | eassumption]. reflexivity.
+    - eapply wf_merge; [exact W | | eassumption]. eapply Hrec; eassumption.
+  Qed.
+
+  Lemma go_wf : forall rec, (forall a b r, rec a b = Val r -> wf_map r) ->
+    forall l1 l2 m r, wf_map m -> go_args w rec l1 l2 m = Val r -> wf_map r.
+  Proof.
+    intros rec Hrec. induction l1 as [|a1 l1 IH]; intros l2 m r W H.
+    - rewrite go_nil in H. injection H as <-. exact W.
+    - apply go_inv in H. destruct H as [a2 [l2' [-> [->|[m' [S G]]]]]]; [apply wf_nil|].
+      eapply IH; [|exact G]. eapply step_wf; eauto.
+  Qed.
+
+  Lemma unify_wf : forall fuel same t1 t2 m,
+    unify w alias any fuel same t1 t2 = Val m -> wf_map m.
+  Proof.
+    induction fuel as [|f IH]; intros same t1 t2 m H; [discriminate H|].
+    apply unify_inv in H. destruct H as [->|[[_ [_ [s [rest [_ H]]]]]|[_ H]]].
+    - apply wf_nil.
+    - eapply IH; exact H.
+    - apply unify_rest_inv in H. destruct H as [->|[[T [-> _]]|[_ [c [a1 [a2 [_ [_ H]]]]]]]].
+      + apply wf_nil.
+      + apply wf_single. exact T.
+      + eapply go_wf; [|apply wf_nil|exact H]. intros a b r. apply IH.
+  Qed.
+End WF.
+
+Lemma unify_keys_distinct_lemma : forall w al any fuel same t1 t2 m,
+  unify w al any fuel same t1 t2 = Val m -> keys_distinct m = true.
+Proof. intros. eapply unify_wf; eauto. Qed.
+
+Lemma unify_assigns_types_lemma : forall w al any fuel same t1 t2 m k v,
+  unify w al any fuel same t1 t2 = Val m -> In (k, v) m -> is_tvar k = true /\ v <> None.
+Proof. intros w al any fuel same t1 t2 m k v H I. eapply (unify_wf _ _ _ _ _ _ _ _ H); eauto. Qed.
+
+Lemma unify_conflict_detected_lemma : forall m k v,
+  (forall m', update_map m k v = Some m' ->
+     (forall old, tv_get m k = Some (Some old) -> exists x, v = Some x /\ py_eqb old x = true) /\
+     tv_get m' k = Some v /\
+     (forall k', py_eqb k' k = true -> tv_get m' k' = Some v) /\
+     (forall k', py_eqb k' k = false -> tv_get m' k' = tv_get m k')) /\
+  (update_map m k v = None ->
+     exists old, tv_get m k = Some (Some old) /\ forall x, v = Some x -> py_eqb old x = false).
+Proof. exact update_map_spec. Qed.
+
+Lemma merge_conflict_detected_lemma : forall res m m', merge m res = Some m' -> keys_distinct res = true ->
+  (forall k v, tv_get res k = Some v ->
+     tv_get m' k = Some v /\
+     (forall old, tv_get m k = Some (Some old) -> exists x, v = Some x /\ py_eqb old x = true)) /\
+  (forall k, tv_get res k = None -> tv_get m' k = tv_get m k).
+Proof. exact merge_spec. Qed.
+
+(* ====================================================================================== *)
+(* U5: assigned types satisfy the bounds of their variables                                *)
+(* ====================================================================================== *)
+Section Bounds.
+  Context (w : world) (alias : list (nat * nat)) (any : nat).
+
+  (* up to Python equality of the bound: the dictionary keeps the FIRST key object, the
+     subtype check was made against the bound of the LAST equal key object *)
+  Definition bounds_ok (m : tvmap) : Prop :=
+    forall x vv b v, In (TVar x vv (Some b), Some v) m -> has_tv b = false ->
+                     exists b', py_eqb b' b = true /\ satisfies w any v b'.
+
+  Lemma bounds_nil : bounds_ok [].
+  Proof. intros x vv b v []. Qed.
+
+  Lemma bounds_update_sub : forall m x v vb y1 m',
+    bounds_ok m -> is_subtype w sub_fuel y1 vb = Rt ->
+    update_map m (TVar x v (Some vb)) (Some y1) = Some m' -> bounds_ok m'.
+  Proof.
+    intros m x v vb y1 m' B S U. rewrite (update_map_some _ _ _ _ U).
+    intros x' vv' b v' I HB. apply tv_set_in in I. destruct I as [I|[E1 E2]]; [eapply B; eauto|].
+    injection E1 as ->. apply py_eqb_tvar_some in E2. destruct E2 as [x0 [vv0 [b0 [E3 E4]]]].
+    injection E3 as <- <- <-. exists vb. split; [rewrite py_eqb_sym; exact E4 | left; exact S].
+  Qed.
+
+  Lemma bounds_update_free : forall m x v y1 m',
+    bounds_ok m -> update_map m (TVar x v None) (Some y1) = Some m' -> bounds_ok m'.
+  Proof.
+    intros m x v y1 m' B U. rewrite (update_map_some _ _ _ _ U).
+    intros x' vv' b v' I HB. apply tv_set_in in I. destruct I as [I|[E1 E2]]; [eapply B; eauto|].
+    apply py_eqb_tvar_some in E2. destruct E2 as [x0 [vv0 [b0 [E3 _]]]]. discriminate E3.
+  Qed.
+
+  Lemma bounds_merge : forall res m m', bounds_ok m -> bounds_ok res -> merge m res = Some m' -> bounds_ok m'.
+  Proof.
+    intros res m m' Bm Br H x vv b v I HB.
+    destruct (merge_in _ _ _ _ _ H I) as [J|[k0 [J E]]]; [eapply Bm; eauto|].
+    apply py_eqb_tvar_some in E. destruct E as [x0 [vv0 [b0 [-> E]]]].
+    assert (HB0 : has_tv b0 = false) by (rewrite <- (py_eqb_has_tv _ _ E); exact HB).
+    destruct (Br _ _ _ _ J HB0) as [b' [E' S]]. exists b'. split; [|exact S].
+    apply (py_eqb_trans b' b0 b E'). rewrite py_eqb_sym. exact E.
+  Qed.
+
+  Lemma step_bounds : forall rec m a1 a2 m',
+    (forall a b r, rec a b = Val r -> bounds_ok r) ->
+    Step w rec m a1 a2 m' -> bounds_ok m -> bounds_ok m'.
+  Proof.
+    intros rec m a1 a2 m' Hrec S B. destruct S as [v|a1 a2 y1 y2 m' _ I]; [exact B|].
+    destruct I.
+    - exact B.
+    - eapply bounds_update_sub; eassumption.
+    - eapply bounds_merge; [exact B | | eassumption]. eapply Hrec; eassumption.
+    - eapply bounds_update_free; eassumption.
+    - eapply bounds_merge; [exact B | | eassumption]. eapply Hrec; eassumption.
+  Qed.
+
+  Lemma go_bounds : forall rec, (forall a b r, rec a b = Val r -> bounds_ok r) ->
+    forall l1 l2 m r, bounds_ok m -> go_args w rec l1 l2 m = Val r -> bounds_ok r.
+  Proof.
+    intros rec Hrec. induction l1 as [|a1 l1 IH]; intros l2 m r B H.
+    - rewrite go_nil in H. injection H as <-. exact B.
+    - apply go_inv in H. destruct H as [a2 [l2' [-> [->|[m' [S G]]]]]]; [apply bounds_nil|].
+      eapply IH; [|exact G]. eapply step_bounds; eauto.
+  Qed.
+
+  Lemma topvar_bounds : forall t1 t2 m, TopVar w any t1 t2 m -> bounds_ok m.
+  Proof.
+    intros t1 t2 m [T [-> [b2 [B2 C]]]] x vv b v [I|[]] HB. injection I as -> <-.
+    change 20 with (S 19) in B2. rewrite (bound_rec_closed w any 19 x vv b HB) in B2.
+    injection B2 as <-. exists b. split; [apply py_eqb_refl|].
+    destruct C as [C|[y [E C]]]; [discriminate C|]. injection E as <-.
+    destruct C as [C|[T1 [x1 [B1 C]]]]; [left; exact C|].
+    right. split; [exact T1|]. exists x1. split; [exact B1 | exact C].
+  Qed.
+
+  Lemma unify_bounds_ok : forall fuel same t1 t2 m,
+    unify w alias any fuel same t1 t2 = Val m -> bounds_ok m.
+  Proof.
+    induction fuel as [|f IH]; intros same t1 t2 m H; [discriminate H|].
+    apply unify_inv in H. destruct H as [->|[[_ [_ [s [rest [_ H]]]]]|[_ H]]].
+    - apply bounds_nil.
+    - eapply IH; exact H.
+    - apply unify_rest_inv in H. destruct H as [->|[T|[_ [c [a1 [a2 [_ [_ H]]]]]]]].
+      + apply bounds_nil.
+      + eapply topvar_bounds; exact T.
+      + eapply go_bounds; [|apply bounds_nil|exact H]. intros a b r. apply IH.
+  Qed.
+End Bounds.
+
+(* the strongest true form: the bound is matched up to Python equality (any `same`) *)
+Lemma unify_bounds_upto_lemma : forall w al any fuel same t1 t2 m k v x vv b,
+  unify w al any fuel same t1 t2 = Val m -> In (k, Some v) m -> k = TVar x vv (Some b) ->
+  has_tv b = false -> exists b', py_eqb b' b = true /\ satisfies w any v b'.
+Proof.
+  intros w al any fuel same t1 t2 m k v x vv b H I -> HB.
+  eapply (unify_bounds_ok w al any fuel same t1 t2 m H); eauto.
+Qed.
+
+(* extra hypothesis: Python equality determines the bound (it contains no builtin, whose
+   primitive flag == ignores) *)
+Lemma unify_bounds_partial_lemma : forall w al any fuel t1 t2 m k v x vv b,
+  (forall b', py_eqb b' b = true -> b' = b) ->
+  unify w al any fuel true t1 t2 = Val m -> In (k, Some v) m -> k = TVar x vv (Some b) ->
+  has_tv b = false -> satisfies w any v b.
+Proof.
+  intros w al any fuel t1 t2 m k v x vv b L H I K HB.
+  destruct (unify_bounds_upto_lemma _ _ _ _ _ _ _ _ _ _ _ _ _ H I K HB) as [b' [E S]].
+  rewrite <- (L b' E). exact S.
+Qed.
+
+(* the witness: D<out P, in Q>; C<T, T'> : D<T, QA>, D<T', K>; builtins K <: QA, J <: BP.
+   X = TVar 5 (bound D<BP, K-primitive>), X' = TVar 5 (bound D<BP, K>) are == in Python.
+   unify (A<C<BP,J>, C<BP,J-primitive>>, A<X, X'>) = {X: C<BP,J-primitive>}, which is not a
+   subtype of the bound of the key object X. *)
+Definition bi5 (s : list nat) : binfo :=
+  {| b_supers := s; b_bottom := false; b_assign := []; b_has_prim := true |}.
+Definition w5 : world :=
+  {| w_ct := [ (1, {| c_params := [TVar 0 Cov None; TVar 1 Contra None]; c_supers := [] |});
+               (2, {| c_params := [TVar 0 Inv None; TVar 1 Inv None];
+                      c_supers := [TApp 1 [TVar 0 Inv None; TBuiltin 11 false];
+                                   TApp 1 [TVar 1 Inv None; TBuiltin 10 false]] |});
+               (3, {| c_params := [TVar 0 Inv None; TVar 1 Inv None]; c_supers := [] |}) ];
+     w_bt := [ (10, bi5 [11]); (11, bi5 []); (12, bi5 [13]); (13, bi5 []) ];
+     w_array := None |}.
+Definition b5  : ty := TApp 1 [TBuiltin 13 false; TBuiltin 10 true].
+Definition b5' : ty := TApp 1 [TBuiltin 13 false; TBuiltin 10 false].
+Definition T5a : ty := TApp 2 [TBuiltin 13 false; TBuiltin 12 false].
+Definition T5b : ty := TApp 2 [TBuiltin 13 false; TBuiltin 12 true].
+
+Lemma unify_bounds_refuted_lemma :
+  ~ (forall w al any fuel t1 t2 m k v x vv b,
+       unify w al any fuel true t1 t2 = Val m -> In (k, Some v) m -> k = TVar x vv (Some b) ->
+       has_tv b = false -> satisfies w any v b).
+Proof.
+  intros H.
+  specialize (H w5 [] 13 5 (TApp 3 [T5a; T5b]) (TApp 3 [TVar 5 Inv (Some b5); TVar 5 Inv (Some b5')])
+                [(TVar 5 Inv (Some b5), Some T5b)] (TVar 5 Inv (Some b5)) T5b 5 Inv b5).
+  assert (E : unify w5 [] 13 5 true (TApp 3 [T5a; T5b])
+                (TApp 3 [TVar 5 Inv (Some b5); TVar 5 Inv (Some b5')]) =
+              Val [(TVar 5 Inv (Some b5), Some T5b)]) by (vm_compute; reflexivity).
+  specialize (H E (or_introl eq_refl) eq_refl eq_refl).
+  destruct H as [H|[H _]].
+  - assert (E2 : is_subtype w5 sub_fuel T5b b5 = Rf) by (vm_compute; reflexivity).
+    rewrite E2 in H. discriminate H.
+  - discriminate H.
+Qed.
+
+(* ====================================================================================== *)
+(* U4: the answer is a unifier                                                             *)
+(* ====================================================================================== *)
+Scheme MatchesG_mind := Minimality for MatchesG Sort Prop
+  with MatchArgsG_mind := Minimality for MatchArgsG Sort Prop
+  with MatchArgG_mind := Minimality for MatchArgG Sort Prop.
+Combined Scheme MatchesG_mutind from MatchesG_mind, MatchArgsG_mind, MatchArgG_mind.
+
+Lemma extends_refl : forall m, extends m m.
+Proof. intros m k v H. exists v. split; [exact H | apply py_eqb_refl]. Qed.
+
+Lemma extends_trans : forall a b c, extends a b -> extends b c -> extends a c.
+Proof.
+  intros a b c H1 H2 k v G. destruct (H1 _ _ G) as [v1 [G1 E1]]. destruct (H2 _ _ G1) as [v2 [G2 E2]].
+  exists v2. split; [exact G2 | eapply py_eqb_trans; eauto].
+Qed.
+
+Lemma extends_update : forall m k v m', update_map m k v = Some m' -> extends m m'.
+Proof.
+  intros m k v m' U k1 v1 G. destruct (update_map_spec m k v) as [S _].
+  destruct (S _ U) as [S1 [_ [S3 S4]]]. destruct (py_eqb k1 k) eqn:E.
+  - rewrite (tv_get_cong m k1 k E) in G. destruct (S1 _ G) as [x [-> Ex]].
+    exists x. split; [apply S3; exact E | exact Ex].
+  - exists v1. split; [rewrite (S4 _ E); exact G | apply py_eqb_refl].
+Qed.
+
+Lemma extends_merge_l : forall res m m', merge m res = Some m' -> extends m m'.
+Proof.
+  induction res as [|[k0 v0] res IH]; intros m m' H.
+  - rewrite merge_nil in H. injection H as <-. apply extends_refl.
+  - rewrite merge_cons in H. destruct (update_map m k0 v0) as [m1|] eqn:U; [|discriminate].
+    eapply extends_trans; [eapply extends_update; exact U | apply IH; exact H].
+Qed.
+
+Lemma extends_merge_r : forall res m m', merge m res = Some m' -> keys_distinct res = true -> extends res m'.
+Proof.
+  intros res m m' H KD k v G. destruct (merge_spec _ _ _ H KD) as [S _].
+  destruct (S _ _ G) as [S1 _]. exists v. split; [exact S1 | apply py_eqb_refl].
+Qed.
+
+Lemma matchesG_mono : forall ob m m', extends m m' ->
+  (forall p t, MatchesG ob m p t -> MatchesG ob m' p t) /\
+  (forall ps ts, MatchArgsG ob m ps ts -> MatchArgsG ob m' ps ts) /\
+  (forall p t, MatchArgG ob m p t -> MatchArgG ob m' p t).
+Proof.
+  intros ob m m' X. apply MatchesG_mutind.
+  - intros. apply G_Closed; assumption.
+  - intros p t v T G E. destruct (X _ _ G) as [v' [G' E']]. eapply G_Assigned; [exact T | exact G' |].
+    rewrite py_eqb_sym in E'. eapply py_eqb_trans; eauto.
+  - intros. apply G_Bounded; assumption.
+  - intros. apply G_App; assumption.
+  - apply GA_Nil.
+  - intros. apply GA_Cons; assumption.
+  - intros. apply GG_Star.
+  - intros. apply GG_Proj; assumption.
+  - intros. apply GG_Plain; assumption.
+Qed.
+
+Lemma matchesG_strict_all : forall m,
+  (forall p t, MatchesG false m p t -> Matches m p t) /\
+  (forall ps ts, MatchArgsG false m ps ts -> MatchArgs m ps ts) /\
+  (forall p t, MatchArgG false m p t -> MatchArg m p t).
+Proof.
+  intros m. apply MatchesG_mutind.
+  - intros. apply M_Closed; assumption.
+  - intros. eapply M_Assigned; eauto.
+  - intros. discriminate.
+  - intros. apply M_App; assumption.
+  - apply MA_Nil.
+  - intros. apply MA_Cons; assumption.
+  - intros. apply MG_Star.
+  - intros. apply MG_Proj; assumption.
+  - intros. apply MG_Plain; assumption.
+Qed.
+
+Lemma matchesG_strict : forall m p t, MatchesG false m p t -> Matches m p t.
+Proof. intros m. apply (matchesG_strict_all m). Qed.
+
+Section Sound.
+  Context (w : world) (alias : list (nat * nat)) (any : nat).
+
+  (* a variable-free pattern yields the empty assignment *)
+  Lemma go_closed : forall rec l1 l2 m r, existsb has_tv l2 = false ->
+    go_args w rec l1 l2 m = Val r -> r = [] \/ r = m.
+  Proof.
+    intros rec. induction l1 as [|a1 l1 IH]; intros l2 m r C H.
+    - rewrite go_nil in H. injection H as <-. right. reflexivity.
+    - apply go_inv in H. destruct H as [a2 [l2' [-> [->|[m' [S G]]]]]]; [left; reflexivity|].
+      cbn [existsb] in C. apply orb_false_iff in C. destruct C as [C1 C2].
+      assert (E : m' = m).
+      { destruct S as [v|a1 a2 y1 y2 m' P I]; [reflexivity|].
+        assert (C3 : has_tv y2 = false) by (destruct P; [exact C1 | exact C1]).
+        destruct I; try reflexivity; try congruence; cbn in C3; discriminate C3. }
+      subst m'. apply (IH _ _ _ C2 G).
+  Qed.
+
+  Lemma unify_closed_empty : forall f t1 t2 m, has_tv t2 = false ->
+    unify w alias any f true t1 t2 = Val m -> m = [].
+  Proof.
+    intros [|f] t1 t2 m C H; [discriminate H|].
+    apply unify_true_inv in H. destruct H as [->|[[T _]|[_ [c [a1 [a2 [-> [-> H]]]]]]]].
+    - reflexivity.
+    - destruct t2; try discriminate T. discriminate C.
+    - cbn [has_tv] in C. destruct (go_closed _ _ _ _ _ C H); assumption.
+  Qed.
+
+  Variable ob : bool.
+
+  Lemma inner_sound : forall f m y1 y2 m',
+    (forall t1 t2 r, arity_ok w t1 = true -> arity_ok w t2 = true ->
+        (ob = true \/ closed_bounds t2 = true) ->
+        unify w alias any f true t1 t2 = Val r -> r <> [] -> MatchesG ob r t2 t1) ->
+    arity_ok w y1 = true -> arity_ok w y2 = true -> (ob = true \/ closed_bounds y2 = true) ->
+    Inner w (unify w alias any f true) m y1 y2 m' ->
+    extends m m' /\ MatchesG ob m' y2 y1.
+  Proof.
+    intros f m y1 y2 m' IHf A1 A2 CB I. destruct I.
+    - split; [apply extends_refl | apply G_Closed; assumption].
+    - split; [eapply extends_update; eassumption|].
+      destruct (update_map_spec m (TVar x v (Some vb)) (Some y1)) as [S _].
+      destruct (S _ H0) as [_ [S2 _]].
+      eapply G_Assigned; [reflexivity | exact S2 | apply py_eqb_refl].
+    - split; [eapply extends_merge_l; eassumption|].
+      destruct CB as [CB|CB].
+      + apply G_Bounded; [exact CB|].
+        assert (KD : keys_distinct res = true) by (eapply unify_keys_distinct_lemma; eassumption).
+        apply (proj1 (matchesG_mono ob res m' (extends_merge_r _ _ _ H4 KD))).
+        apply IHf; try assumption. left. exact CB.
+      + exfalso. cbn [closed_bounds] in CB. apply negb_true_iff in CB.
+        apply H3. eapply unify_closed_empty; eassumption.
+    - split; [eapply extends_update; eassumption|].
+      destruct (update_map_spec m (TVar x v None) (Some y1)) as [S _].
+      destruct (S _ H) as [_ [S2 _]].
+      eapply G_Assigned; [reflexivity | exact S2 | apply py_eqb_refl].
+    - split; [eapply extends_merge_l; eassumption|].
+      assert (KD : keys_distinct res = true) by (eapply unify_keys_distinct_lemma; eassumption).
+      apply (proj1 (matchesG_mono ob res m' (extends_merge_r _ _ _ H2 KD))).
+      apply IHf; assumption.
+  Qed.
+
+  Lemma step_sound : forall f m a1 a2 m',
+    (forall t1 t2 r, arity_ok w t1 = true -> arity_ok w t2 = true ->
+        (ob = true \/ closed_bounds t2 = true) ->
+        unify w alias any f true t1 t2 = Val r -> r <> [] -> MatchesG ob r t2 t1) ->
+    arity_ok w a1 = true -> arity_ok w a2 = true -> (ob = true \/ closed_bounds a2 = true) ->
+    Step w (unify w alias any f true) m a1 a2 m' ->
+    extends m m' /\ MatchArgG ob m' a2 a1.
+  Proof.
+    intros f m a1 a2 m' IHf A1 A2 CB S. destruct S as [v|a1 a2 y1 y2 m' P I].
+    - split; [apply extends_refl | apply GG_Star].
+    - destruct P as [a1 a2 W|v y1 y2].
+      + destruct (inner_sound f m a1 a2 m' IHf A1 A2 CB I) as [X M].
+        split; [exact X | apply GG_Plain; assumption].
+      + destruct (inner_sound f m y1 y2 m' IHf A1 A2 CB I) as [X M].
+        split; [exact X | apply GG_Proj; assumption].
+  Qed.
+
+  Lemma go_sound : forall f,
+    (forall t1 t2 r, arity_ok w t1 = true -> arity_ok w t2 = true ->
+        (ob = true \/ closed_bounds t2 = true) ->
+        unify w alias any f true t1 t2 = Val r -> r <> [] -> MatchesG ob r t2 t1) ->
+    forall l1 l2 m r, length l1 = length l2 ->
+      forallb (arity_ok w) l1 = true -> forallb (arity_ok w) l2 = true ->
+      (ob = true \/ forallb closed_bounds l2 = true) ->
+      go_args w (unify w alias any f true) l1 l2 m = Val r -> r <> [] ->
+      extends m r /\ MatchArgsG ob r l2 l1.
+  Proof.
+    intros f IHf. induction l1 as [|a1 l1 IH]; intros l2 m r L A1 A2 CB H NE.
+    - destruct l2; [|discriminate L]. rewrite go_nil in H. injection H as <-.
+      split; [apply extends_refl | apply GA_Nil].
+    - apply go_inv in H. destruct H as [a2 [l2' [-> [->|[m' [S G]]]]]]; [contradiction NE; reflexivity|].
+      cbn [forallb] in A1, A2. apply andb_prop in A1, A2. destruct A1 as [A1 A1'], A2 as [A2 A2'].
+      assert (CB1 : ob = true \/ closed_bounds a2 = true).
+      { destruct CB as [CB|CB]; [left; exact CB|]. cbn [forallb] in CB. apply andb_prop in CB. right. tauto. }
+      assert (CB2 : ob = true \/ forallb closed_bounds l2' = true).
+      { destruct CB as [CB|CB]; [left; exact CB|]. cbn [forallb] in CB. apply andb_prop in CB. right. tauto. }
+      destruct (step_sound f m a1 a2 m' IHf A1 A2 CB1 S) as [X1 M1].
+      cbn [length] in L. injection L as L.
+      destruct (IH l2' m' r L A1' A2' CB2 G NE) as [X2 M2].
+      split; [eapply extends_trans; eassumption|].
+      apply GA_Cons; [|exact M2]. apply (proj2 (proj2 (matchesG_mono ob m' r X2))). exact M1.
+  Qed.
+
+  Lemma arity_app : forall c l, arity_ok w (TApp c l) = true ->
+    (exists d, find_class w c = Some d /\ length l = length (c_params d)) /\ forallb (arity_ok w) l = true.
+  Proof.
+    intros c l H. cbn [arity_ok] in H. apply andb_prop in H. destruct H as [H1 H2]. split; [|exact H2].
+    destruct (find_class w c) as [d|]; [|discriminate]. exists d. split; [reflexivity|].
+    apply Nat.eqb_eq. exact H1.
+  Qed.
+
+  Lemma unify_matchesG : forall f t1 t2 m, arity_ok w t1 = true -> arity_ok w t2 = true ->
+    (ob = true \/ closed_bounds t2 = true) ->
+    unify w alias any f true t1 t2 = Val m -> m <> [] -> MatchesG ob m t2 t1.
+  Proof.
+    induction f as [|f IH]; intros t1 t2 m A1 A2 CB H NE; [discriminate H|].
+    apply unify_true_inv in H. destruct H as [->|[[T [-> _]]|[_ [c [a1 [a2 [-> [-> H]]]]]]]].
+    - contradiction NE; reflexivity.
+    - eapply G_Assigned; [exact T | | apply py_eqb_refl]. cbn [tv_get]. rewrite py_eqb_refl. reflexivity.
+    - apply arity_app in A1, A2. destruct A1 as [[d1 [F1 L1]] A1], A2 as [[d2 [F2 L2]] A2].
+      rewrite F1 in F2. injection F2 as <-.
+      assert (CB' : ob = true \/ forallb closed_bounds a2 = true).
+      { destruct CB as [CB|CB]; [left; exact CB | right; exact CB]. }
+      destruct (go_sound f IH a1 a2 [] m (eq_trans L1 (eq_sym L2)) A1 A2 CB' H NE) as [_ M].
+      apply G_App. exact M.
+  Qed.
+End Sound.
+
+(* U4, partial: extra hypotheses = (1) both types respect the declared arities,
+   (2) every bounded variable of the pattern has a variable-free bound.
+   (has_tv t1 = false is not needed.) *)
+Lemma unify_matches_partial_lemma : forall w al any fuel t1 t2 m,
+  arity_ok w t1 = true -> arity_ok w t2 = true -> closed_bounds t2 = true ->
+  unify w al any fuel true t1 t2 = Val m -> m <> [] -> Matches m t2 t1.
+Proof.
+  intros w al any fuel t1 t2 m A1 A2 CB H NE. apply matchesG_strict.
+  eapply unify_matchesG; eauto.
+Qed.
+
+(* U4, weak: only the arities are assumed; a bounded variable may match either through its
+   assignment or through its bound *)
+Lemma unify_matches_weak_lemma : forall w al any fuel t1 t2 m,
+  arity_ok w t1 = true -> arity_ok w t2 = true ->
+  unify w al any fuel true t1 t2 = Val m -> m <> [] -> MatchesW m t2 t1.
+Proof.
+  intros w al any fuel t1 t2 m A1 A2 H NE. unfold MatchesW. eapply unify_matchesG; eauto.
+Qed.
+
+(* the witness: class 1 = Box<T>, class 2 = A<T1, T2>; X <: Box<Y>.
+   unify (A<Nothing, Box<Int>>, A<X, X>) = {X: Nothing, Y: Int}: the first occurrence of X is
+   assigned (Nothing is a subtype of the bound), the second is matched against the bound. *)
+Definition w4 : world :=
+  {| w_ct := [ (1, {| c_params := [TVar 0 Inv None]; c_supers := [] |});
+               (2, {| c_params := [TVar 0 Inv None; TVar 1 Inv None]; c_supers := [] |}) ];
+     w_bt := [ (1, {| b_supers := []; b_bottom := false; b_assign := []; b_has_prim := false |});
+               (2, {| b_supers := []; b_bottom := false; b_assign := []; b_has_prim := false |}) ];
+     w_array := None |}.
+Definition Int4 : ty := TBuiltin 1 false.
+Definition Str4 : ty := TBuiltin 2 false.
+Definition Y4 : ty := TVar 7 Inv None.
+Definition X4 : ty := TVar 6 Inv (Some (TApp 1 [Y4])).
+Definition Z4 : ty := TVar 8 Inv None.
+
+Ltac kill :=
+  match goal with
+  | C : has_tv _ = false |- _ => solve [vm_compute in C; discriminate C]
+  | C : is_tvar _ = true |- _ => solve [vm_compute in C; discriminate C]
+  | C : tv_get _ _ = None |- _ => solve [vm_compute in C; discriminate C]
+  end.
+
+Lemma unify_matches_refuted_lemma :
+  ~ (forall w al any fuel t1 t2 m, has_tv t1 = false ->
+       unify w al any fuel true t1 t2 = Val m -> m <> [] -> Matches m t2 t1).
+Proof.
+  intros H.
+  specialize (H w4 [] 1 5 (TApp 2 [TNothing; TApp 1 [Int4]]) (TApp 2 [X4; X4])
+                [(X4, Some TNothing); (Y4, Some Int4)] eq_refl).
+  assert (E : unify w4 [] 1 5 true (TApp 2 [TNothing; TApp 1 [Int4]]) (TApp 2 [X4; X4]) =
+              Val [(X4, Some TNothing); (Y4, Some Int4)]) by (vm_compute; reflexivity).
+  specialize (H E). assert (NE : [(X4, Some TNothing); (Y4, Some Int4)] <> []) by discriminate.
+  specialize (H NE). clear E NE.
+  inversion H; subst; try kill.
+  match goal with MA : MatchArgs _ _ _ |- _ => inversion MA; subst; clear MA end.
+  match goal with MA : MatchArgs _ _ _ |- _ => inversion MA; subst; clear MA end.
+  match goal with M : MatchArg _ _ (TApp _ _) |- _ => inversion M; subst; clear M end.
+  match goal with M : Matches _ _ (TApp _ _) |- _ => inversion M; subst; clear M; try kill end.
+  match goal with G : tv_get _ _ = Some (Some _) |- _ => vm_compute in G; injection G as <- end.
+  match goal with E : py_eqb _ _ = true |- _ => vm_compute in E; discriminate E end.
+Qed.
+
+(* the arity hypothesis is needed as well: A<Int> against A<X, Y> *)
+Lemma unify_matches_arity_needed_lemma :
+  ~ (forall w al any fuel t1 t2 m, has_tv t1 = false -> closed_bounds t2 = true ->
+       unify w al any fuel true t1 t2 = Val m -> m <> [] -> Matches m t2 t1).
+Proof.
+  intros H.
+  specialize (H w4 [] 1 5 (TApp 2 [Int4]) (TApp 2 [Z4; Y4]) [(Z4, Some Int4)] eq_refl eq_refl).
+  assert (E : unify w4 [] 1 5 true (TApp 2 [Int4]) (TApp 2 [Z4; Y4]) = Val [(Z4, Some Int4)])
+    by (vm_compute; reflexivity).
+  specialize (H E). assert (NE : [(Z4, Some Int4)] <> []) by discriminate.
+  specialize (H NE). clear E NE.
+  inversion H; subst; try kill.
+  match goal with MA : MatchArgs _ _ _ |- _ => inversion MA; subst; clear MA end.
+  match goal with MA : MatchArgs _ _ _ |- _ => inversion MA end.
+Qed.
+
+(* non-vacuity *)
+Example unify_example_out :
+  unify w4 [] 1 5 true (TApp 2 [TApp 1 [Int4]; TWild Cov (Some Str4)])
+                       (TApp 2 [TApp 1 [Z4]; TWild Cov (Some Y4)])
+  = Val [(Z4, Some Int4); (Y4, Some Str4)].
+Proof. vm_compute. reflexivity. Qed.
+
+Example unify_example_in :
+  unify w4 [] 1 5 true (TApp 2 [TApp 1 [Int4]; TWild Cov (Some Str4)])
+                       (TApp 2 [TApp 1 [Z4]; TWild Contra (Some Y4)])
+  = Val [].
+Proof. vm_compute. reflexivity. Qed.
+
+Example unify_example_conflict :
+  unify w4 [] 1 5 true (TApp 2 [Int4; Str4]) (TApp 2 [Y4; Y4]) = Val [].
+Proof. vm_compute. reflexivity. Qed.
+
+Example unify_example_matches :
+  Matches [(Z4, Some Int4); (Y4, Some Str4)]
+          (TApp 2 [TApp 1 [Z4]; TWild Cov (Some Y4)])
+          (TApp 2 [TApp 1 [Int4]; TWild Cov (Some Str4)]).
+Proof.
+  eapply unify_matches_partial_lemma with (w := w4) (al := []) (any := 1) (fuel := 5);
+    try (vm_compute; reflexivity); discriminate.
+Qed.
+
+(* ====================================================================================== *)
+(* U6: supertype-matching mode                                                             *)
+(* ====================================================================================== *)
+Lemma unify_supertype_mode_full : forall w al any fuel t1 t2 m,
+  unify w al any fuel false t1 t2 = Val m -> m <> [] ->
+  exists s f', last_super_chain w t1 s /\
+               unify w al any (S f') false s t2 = Val m /\
+               (nm_eqb (name_of al s) (name_of al t2) = true \/ is_tvar t2 = true) /\
+               unify_rest w any (unify w al any f' true) s t2 = Val m.
+Proof.
+  intros w al any. induction fuel as [|f IH]; intros t1 t2 m H NE; [discriminate H|].
+  pose proof H as H0. apply unify_inv in H. destruct H as [->|[[_ [_ [s [rest [R H]]]]]|[N H]]].
+  - contradiction NE; reflexivity.
+  - destruct (IH _ _ _ H NE) as [s' [f' [C [U [D B]]]]]. exists s', f'.
+    split; [eapply LS_step; eassumption|]. split; [exact U|]. split; [exact D | exact B].
+  - exists t1, f. split; [apply LS_refl|]. split; [exact H0|]. split; [|exact H].
+    specialize (N eq_refl). apply andb_false_iff in N. destruct N as [N|N]; apply negb_false_iff in N.
+    + left. exact N.
+    + right. exact N.
+Qed.
+
+Lemma unify_supertype_mode_lemma : forall w al any fuel t1 t2 m,
+  unify w al any fuel false t1 t2 = Val m -> m <> [] ->
+  exists s f', last_super_chain w t1 s /\
+               unify w al any f' false s t2 = Val m /\
+               (nm_eqb (name_of al s) (name_of al t2) = true \/ is_tvar t2 = true).
+Proof.
+  intros w al any fuel t1 t2 m H NE.
+  destruct (unify_supertype_mode_full _ _ _ _ _ _ _ H NE) as [s [f' [C [U [D _]]]]].
+  exists s, (S f'). auto.
+Qed.
